@@ -1,4 +1,4 @@
-import RsslVerif.Lemmas.ElabRelease
+import RsslVerif.Lemmas.ElabPlace
 import RsslVerif.Lemmas.Overload
 /-!
 # C03 — accepted programs elaborate to well-typed IR; ill-typed programs are rejected
@@ -11,7 +11,8 @@ All are universally quantified: any environment, any expression nesting, any typ
 namespace RsslVerif.Thm.C03
 open RsslVerif.Gen.RankTable RsslVerif.Gen.TypingTables RsslVerif.Model.Conv RsslVerif.Model.Overload
 open RsslVerif.Model.IrTyping RsslVerif.Model.Elab RsslVerif.Lemmas.ElabConv RsslVerif.Lemmas.Elab
-open RsslVerif.Lemmas.ElabForms RsslVerif.Lemmas.ElabExact RsslVerif.Lemmas.ElabRelease RsslVerif.Lemmas.Overload
+open RsslVerif.Lemmas.ElabForms RsslVerif.Lemmas.ElabExact RsslVerif.Lemmas.ElabRelease RsslVerif.Lemmas.ElabPlace
+open RsslVerif.Lemmas.Overload
 open RsslVerif.Spec.Overload
 
 /-! ## `ImplicitConversion::find` -/
@@ -431,42 +432,44 @@ theorem elab_assign_exact {Γ : Env} {dbg : Bool} {o : BinOp} {a b : SExpr} {e' 
           · simp at hn
           · split at hn
             · simp at hn
-            · simp at hn
             · split at hn
               · simp at hn
-              · rename_i i hi
-                split at hn
+              · simp at hn
+              · split at hn
                 · simp at hn
-                · rename_i out hout
-                  simp only [Except.ok.injEq, Prod.mk.injEq] at hn
-                  obtain ⟨rfl, rfl⟩ := hn
-                  obtain ⟨_, _, hl⟩ := binop_rules o i hi
-                  obtain ⟨hsame, _, _⟩ := binop_rules o i hi
-                  obtain ⟨ta, tb, h1, h2, h3, h4⟩ := assignment_operands ⟨hl ho, hsame⟩ hs
-                  have hta : ta = τa := by
-                    have e1 := typeOf_of_hasType _ _ h1
-                    have e2 := typeOf_of_hasType _ _ iha
-                    rw [e1] at e2; simpa using e2
-                  subst hta
-                  refine ⟨i, _, _, ta, tb, rfl, h1, h2, h3, h4, by simpa using hconst, ?_⟩
-                  -- the result type is the left operand's type
-                  have := typeOf_of_hasType _ _ hs
-                  cases hs with
-                  | op hargs hret =>
-                    cases hargs with
-                    | cons ha' hr =>
-                      cases hr with
-                      | cons hb' hn' =>
-                        cases hn'
-                        have e1 := typeOf_of_hasType _ _ ha'
-                        have e2 := typeOf_of_hasType _ _ h1
-                        rw [e1] at e2
-                        simp at e2; subst e2
-                        have hres : i.rule.result = .arg0 := by
-                          cases o <;> simp [BinOp.cls] at ho <;> simp [BinOp.toIOp] at hi <;> subst hi <;> rfl
-                        simp only [opReturn, hres] at hret
-                        repeat' split at hret
-                        all_goals (first | (simp at hret; done) | (simp at hret; exact hret.symm))
+                · rename_i i hi
+                  split at hn
+                  · simp at hn
+                  · rename_i out hout
+                    simp only [Except.ok.injEq, Prod.mk.injEq] at hn
+                    obtain ⟨rfl, rfl⟩ := hn
+                    obtain ⟨_, _, hl⟩ := binop_rules o i hi
+                    obtain ⟨hsame, _, _⟩ := binop_rules o i hi
+                    obtain ⟨ta, tb, h1, h2, h3, h4⟩ := assignment_operands ⟨hl ho, hsame⟩ hs
+                    have hta : ta = τa := by
+                      have e1 := typeOf_of_hasType _ _ h1
+                      have e2 := typeOf_of_hasType _ _ iha
+                      rw [e1] at e2; simpa using e2
+                    subst hta
+                    refine ⟨i, _, _, ta, tb, rfl, h1, h2, h3, h4, by simpa using hconst, ?_⟩
+                    -- the result type is the left operand's type
+                    have := typeOf_of_hasType _ _ hs
+                    cases hs with
+                    | op hargs hret =>
+                      cases hargs with
+                      | cons ha' hr =>
+                        cases hr with
+                        | cons hb' hn' =>
+                          cases hn'
+                          have e1 := typeOf_of_hasType _ _ ha'
+                          have e2 := typeOf_of_hasType _ _ h1
+                          rw [e1] at e2
+                          simp at e2; subst e2
+                          have hres : i.rule.result = .arg0 := by
+                            cases o <;> simp [BinOp.cls] at ho <;> simp [BinOp.toIOp] at hi <;> subst hi <;> rfl
+                          simp only [opReturn, hres] at hret
+                          repeat' split at hret
+                          all_goals (first | (simp at hret; done) | (simp at hret; exact hret.symm))
 
 /-- **Accepted arithmetic / comparison / bit / logical operators** receive two operands of exactly the same type -/
 theorem elab_arith_exact {Γ : Env} {dbg : Bool} {o : BinOp} {a b : SExpr} {e' : IExpr} {τ : ETy} (ho : o.cls = .arith)
@@ -515,15 +518,57 @@ theorem elab_call_args_exact {Γ : Env} {dbg : Bool} {name : Nat} {args : SArgs}
       · simp at h
       · rename_i n τn hn
         obtain ⟨rfl, rfl⟩ := selfCheck_type h
-        unfold elabCall at hn
-        repeat' split at hn
-        all_goals (first | (simp at hn; done) | skip)
-        all_goals (
-          simp only [Except.ok.injEq, Prod.mk.injEq] at hn
-          obtain ⟨rfl, rfl⟩ := hn
-          rename_i id _ _ s hs _ as'' hca
-          obtain ⟨us, h1, h2⟩ := castArgs_exact s.params as1 ts as'' iha hca
-          exact ⟨id, s, as'', us, rfl, hs, rfl, h1, h2⟩)
+        obtain ⟨id, s, as'', _, hs, hca, _, rfl, rfl⟩ := elabCall_inv hn
+        obtain ⟨us, h1, h2⟩ := castArgs_exact s.params as1 ts as'' iha hca
+        exact ⟨id, s, as'', us, rfl, hs, rfl, h1, h2⟩
+
+/-- **`out` / `inout` arguments are mutable lvalues.**  In an accepted call every argument given for an `out` / `inout`
+    parameter is — under the IR's own typing rules — an lvalue of non-const type (`OutArgsPlaces`), hence never the result
+    of a conversion (`out_arg_not_converted`): `check_output_arguments` runs on the arguments *after* `apply_casts`
+    (fixes b359800, 3758fdd).  Before the fix `void f0(out int); int1 v0; f0(v0)` elaborated to `f0(Cast(int, v0))` — the
+    former witness `out_arg_receives_cast`. -/
+theorem elab_out_args_are_lvalues {Γ : Env} {dbg : Bool} {name : Nat} {args : SArgs} {e' : IExpr} {τ : ETy}
+    (h : elabE dbg Γ (.call name args) = .ok (e', τ)) :
+    ∃ id s as', e' = .call id as' ∧ Γ.funcs[id]? = some s ∧ OutArgsPlaces Γ s.params as' := by
+  simp only [elabE] at h
+  split at h
+  · simp at h
+  · split at h
+    · simp at h
+    · rename_i as1 ts ha
+      have iha := elabArgs_sound_any dbg args as1 ts ha
+      split at h
+      · simp at h
+      · rename_i n τn hn
+        obtain ⟨rfl, rfl⟩ := selfCheck_type h
+        obtain ⟨id, s, as'', _, hs, hca, hco, rfl, rfl⟩ := elabCall_inv hn
+        obtain ⟨us, h1, _⟩ := castArgs_exact s.params as1 ts as'' iha hca
+        exact ⟨id, s, as'', rfl, hs, checkOutArgs_places s.params as'' us h1 hco⟩
+
+/-- an lvalue is not a `Cast` and not a re-tagged literal, the two nodes `ImplicitConversion::apply` can wrap an argument in -/
+theorem out_arg_not_converted {Γ : Env} {e : IExpr} {τ : ETy} (he : HasType Γ e τ) (hv : τ.vt = .lvalue) :
+    (∀ t x, e ≠ .cast t x) ∧ (∀ k, e ≠ .lit k) := lvalue_not_converted he hv
+
+/-- the former witness is now rejected: `void f0(out int); int1 v0; f0(v0)` reports `LvalueRequired` (the argument would be
+    `Cast(int, v0)`), like `inout int1` given an `int` and `out float2x2` given a `row_major float2x2`; `f0(v1)` with
+    `int v1` is accepted with the variable itself as argument -/
+def outEnv : Env :=
+  { vars := [⟨{}, .vector .int32 1⟩, ⟨{}, .scalar .int32⟩, ⟨{ rest := 1 }, .matrix .float32 2 2⟩],
+    funcs := [⟨0, [⟨⟨{}, .scalar .int32⟩, .out⟩], 1, ⟨{}, .scalar .int32⟩⟩,
+              ⟨1, [⟨⟨{}, .vector .int32 1⟩, .inOut⟩], 1, ⟨{}, .scalar .int32⟩⟩,
+              ⟨2, [⟨⟨{}, .matrix .float32 2 2⟩, .out⟩], 1, ⟨{}, .scalar .int32⟩⟩] }
+
+def lvalueRequired (e : SExpr) : Bool :=
+  match elabE true outEnv e with
+  | .error (.reject "LvalueRequired") => true
+  | _ => false
+
+example :
+    (lvalueRequired (.call 0 (.cons (.var 0) .nil)) && lvalueRequired (.call 1 (.cons (.var 1) .nil)) &&
+     lvalueRequired (.call 2 (.cons (.var 2) .nil)) &&
+     (match elabE true outEnv (.call 0 (.cons (.var 1) .nil)) with
+      | .ok (.call 0 (.cons (.var 1) .nil), _) => true
+      | _ => false)) = true := by decide
 
 /-- writes to the source forms the property lists (literal, `a + b`, function result, and casts, `?:`, `a++`, `-a`, ...)
     are never accepted -/
@@ -546,17 +591,5 @@ theorem elab_rejects_increment_of_rvalue_form {Γ : Env} {dbg : Bool} {o : UnOp}
   | ok p =>
     obtain ⟨e', τ⟩ := p
     exact elab_rejects_increment ho he (Or.inl (rvalue_forms hf he)) r h
-
-/-! ## where the statements stop: witnesses replayed on the implementation -/
-
-/-- **An rvalue reaches an `out` parameter.**  `void f0(out int); int1 v0; f0(v0)` is accepted and elaborates to
-    `f0(Cast(int, v0))`: `find` allows `int1 → int` towards an lvalue, `apply` turns it into a cast.  (So
-    `elab_call_args_exact` cannot be strengthened to "lvalue arguments for out parameters"; still true after the fix batch.) -/
-theorem out_arg_receives_cast :
-    (match elabE true { vars := [⟨{}, .vector .int32 1⟩],
-                        funcs := [⟨0, [⟨⟨{}, .scalar .int32⟩, .out⟩], 1, ⟨{}, .scalar .int32⟩⟩] }
-        (.call 0 (.cons (.var 0) .nil)) with
-     | .ok (.call 0 (.cons (.cast _ (.var 0)) .nil), _) => true
-     | _ => false) = true := by decide
 
 end RsslVerif.Thm.C03
